@@ -706,36 +706,43 @@ Lemma post_fold ss A D :
     /\ never_charged st' = never_charged st /\ draws st' = draws st /\ early st' = early st
     /\ (forall z, In z (gone st) -> In z (gone st'))
     /\ (queue st' <> [] -> forall y, In y L -> In y (gone st'))
-    /\ (queue st = [] -> st' = st).
+    /\ (queue st = [] -> st' = st)
+    /\ (early_unplug st' - early_unplug st = swaps st' - swaps st
+        /\ Z.of_nat (List.length (queue st)) = Z.of_nat (List.length (queue st')) + (swaps st' - swaps st)
+        /\ Z.of_nat (List.length (gone st')) = Z.of_nat (List.length (gone st)) + (swaps st' - swaps st)
+        /\ swaps st <= swaps st').
 Proof.
   intros Hnd. induction L as [|y L IH]; intros st H HL Hocc.
-  - exists st. simpl. repeat apply conj; auto. intros _ y [].
+  - exists st. simpl. repeat apply conj; auto; try lia.
   - simpl. destruct (queue st) as [|h t] eqn:Eq.
-    + simpl. destruct (IH st H) as [st' [R [I [N [Dr [Ea [G [Q E]]]]]]]].
+    + simpl. destruct (IH st H) as [st' [R [I [N [Dr [Ea [G [Q [E _]]]]]]]]].
       * now inversion HL.
       * intros. apply Hocc. now right.
       * assert (st' = st) by (now apply E). subst st'.
-        exists st. repeat apply conj; auto. intros K. now rewrite Eq in K.
+        exists st. repeat apply conj; auto; try lia; try (rewrite Eq; simpl; lia).
+        intros K. now rewrite Eq in K.
     + simpl List.length.
       replace (0 <? Z.of_nat (S (List.length t))) with true by (symmetry; apply Z.ltb_lt; lia).
       assert (Hy : In y (occupants (evses st))) by (apply Hocc; now left).
       apply In_occupants in Hy. destruct Hy as [s Hs].
       rewrite (i_st_conn _ _ _ _ H s y Hs).
       destruct (unplug_conn ss A D st s y Hnd H Hs)
-        as [st1 [R1 [I1 [N1 [E1 [Dr1 [Ea1 [G1 [O1 _]]]]]]]]].
+        as [st1 [R1 [I1 [N1 [E1 [Dr1 [Ea1 [G1 [O1 [_ Hh]]]]]]]]]].
+      destruct (Hh h t Eq) as [_ [Hq1 [Hsw1 _]]].
       rewrite R1.
       assert (I1' : Inv ss A D (set_early_unplug st1 (early_unplug st1 + 1))).
       { apply inv_set_early_unplug. apply I1; [apply incl_refl|]. intros; now left. }
-      destruct (IH _ I1') as [st' [R [I [N [Dr [Ea [G [Q E]]]]]]]].
+      destruct (IH _ I1') as [st' [R [I [N [Dr [Ea [G [Q [E [F1 [F2 [F3 F4]]]]]]]]]]]].
       * now inversion HL.
       * intros z Hz. simpl. apply O1.
         -- inversion HL; subst. intro; subst; contradiction.
         -- apply Hocc. now right.
       * exists st'. simpl in *. split; [exact R|]. split; [exact I|].
-        split; [congruence|]. split; [congruence|]. split; [congruence|]. split; [|split].
+        split; [congruence|]. split; [congruence|]. split; [congruence|]. split; [|split; [|split]].
         -- intros z Hz. apply G. rewrite G1. now right.
         -- intros K z [Hz|Hz]; [subst; apply G; rewrite G1; now left|now apply Q].
         -- discriminate.
+        -- rewrite G1, Hq1 in *. simpl List.length in *. lia.
 Qed.
 
 Lemma post_inv ss A D st full :
@@ -744,16 +751,20 @@ Lemma post_inv ss A D st full :
     /\ never_charged st' = never_charged st /\ draws st' = draws st
     /\ (forall z, In z (gone st) -> In z (gone st'))
     /\ (early st = true -> queue st' <> [] ->
-        forall y, In y (occupants (evses st)) -> In y full -> In y (gone st')).
+        forall y, In y (occupants (evses st)) -> In y full -> In y (gone st'))
+    /\ (early_unplug st' - early_unplug st = swaps st' - swaps st
+        /\ Z.of_nat (List.length (queue st)) = Z.of_nat (List.length (queue st')) + (swaps st' - swaps st)
+        /\ Z.of_nat (List.length (gone st')) = Z.of_nat (List.length (gone st)) + (swaps st' - swaps st)
+        /\ swaps st <= swaps st').
 Proof.
   intros Hnd H. unfold net_post. destruct (early st) eqn:Ee.
   - destruct (post_fold ss A D Hnd (filter (fun y => zmem y full) (occupants (evses st))) st H)
-      as [st' [R [I [N [Dr [Ea [G [Q E]]]]]]]].
+      as [st' [R [I [N [Dr [Ea [G [Q [E F]]]]]]]]].
     + apply NoDup_filter. eapply nodup_occupants; eauto.
     + intros y Hy. apply filter_In in Hy. tauto.
-    + exists st'. repeat apply conj; auto. intros _ K y Hy Hf. apply Q; auto.
+    + exists st'. repeat apply conj; auto; try tauto. intros _ K y Hy Hf. apply Q; auto.
       apply filter_In. split; auto. now apply zmem_In.
-  - exists st. repeat apply conj; auto. discriminate.
+  - exists st. repeat apply conj; auto; try lia; try discriminate.
 Qed.
 
 (* ------------------------------------------------------------------------------------------ *)
@@ -1171,7 +1182,7 @@ Proof.
       destruct (step ch st0 a) eqn:S; [|discriminate].
       apply step_frame in S. rewrite (IH _ _ R). tauto. }
     now rewrite (K _ _ _ Hrun). }
-  destruct (post_inv ss _ _ st full Hnd I) as [st2 [R [I2 [_ [_ [_ Q]]]]]].
+  destruct (post_inv ss _ _ st full Hnd I) as [st2 [R [I2 [_ [_ [_ [Q _]]]]]]].
   simpl in Hstep. rewrite Hstep in R. inversion R; subst st2.
   assert (G : In y (gone st')).
   { apply Q; auto.
@@ -1179,6 +1190,22 @@ Proof.
     - apply In_occupants. exact Hy. }
   split; auto. intro K. destruct K as [s K].
   eapply inv_occ_not_gone; eauto. apply In_occupants. now exists s.
+Qed.
+
+(* every early departure hands its station to a waiting EV at once: in one post_charging_update
+   the number of early unplugs = admissions from the queue = sessions that left = queue shrinkage *)
+Lemma thm_early_handover ch ss e evs st full st' :
+  NoDup ss -> wf evs -> run ch (init ss e) evs = Ok st ->
+  step ch st (PostCharge full) = Ok st' ->
+  early_unplug st' - early_unplug st = swaps st' - swaps st
+  /\ Z.of_nat (List.length (queue st)) = Z.of_nat (List.length (queue st')) + (swaps st' - swaps st)
+  /\ Z.of_nat (List.length (gone st')) = Z.of_nat (List.length (gone st)) + (swaps st' - swaps st)
+  /\ 0 <= swaps st' - swaps st.
+Proof.
+  intros Hnd Hwf Hrun Hstep.
+  destruct (reached_inv ch ss e evs st Hnd Hwf Hrun) as [I _].
+  destruct (post_inv ss _ _ st full Hnd I) as [st2 [R [_ [_ [_ [_ [_ [F1 [F2 [F3 F4]]]]]]]]]].
+  simpl in Hstep. rewrite Hstep in R. inversion R; subst st2. repeat split; auto. lia.
 Qed.
 
 (* determinism: the outcome depends on the events and on the choices actually drawn only *)
